@@ -94,10 +94,10 @@ Proof. exact c17_parse_ranges_valid. Qed.
 
 (** non-vacuity of the parse hypotheses: "class A;\n// é\nclass B : A;" parses; 2 folding ranges, the second one
     starts after the two-byte character *)
-Example C17_parse_nonvacuous : exists t errs st,
+Theorem C17_parse_nonvacuous : exists t errs st,
   parse_with 100 grammar_prog grammar_entry c17_text = ParseOk t errs st /\
   folding_model t = [(0, 8); (15, 27)] /\ (10 <= List.length (descendants t))%nat.
-Proof. vm_compute. do 3 eexists. split; [reflexivity|]. split; [reflexivity|]. repeat constructor. Qed.
+Proof. exact c17_parse_ex. Qed.
 
 Check C17_parse_ranges_valid : forall fuel txt t errs st ws f,
   fmap_get ws f = Some txt ->
